@@ -73,6 +73,15 @@ def run(tier):
     finally:
         vlib.rm(d2)
     sres = snapcheck.validate(PROP, "SnapTrace_C02.cfg", slines, v, drv)
+    # inside SnapPolygon: every segment step appends exactly the cleaned route, for every live level (SnapSteps S1, S2)
+    d3 = vlib.scratch("c02steps")
+    try:
+        tlines = snapcheck.generate(drv, d3, [dict(gens="star,hole,collapse,rect,arbitrary", variants="base", n=500 if tier == "quick" else 30000, W=6, nmax=12,
+                                                  bias=0.7, seed=sd + 5, extra=["-steps"])])
+    finally:
+        vlib.rm(d3)
+    tres = snapcheck.validate(PROP, "SnapSteps_C02.cfg", tlines, v, drv, module="SnapSteps")
+    cov["segment_step_records"] = len(tlines)
     sst = snapcheck.summarize(sres["stats"])
     if not v.violations and sst["noncollapsing"] < 100:      # (statistics are partial once a record has failed)
         raise Broken("vacuous: only %d non-collapsing (record, level) pairs" % sst["noncollapsing"])
@@ -82,8 +91,8 @@ def run(tier):
 
     rc = v.finish()
     cov.update({
-        "states": r.distinct + r0.distinct + tstates + sres["states"], "transitions": r.generated + r0.generated + sres["transitions"],
-        "traces_validated_against_impl": summary["n"] + nrec + len(slines),
+        "states": r.distinct + r0.distinct + tstates + sres["states"] + tres["states"], "transitions": r.generated + r0.generated + sres["transitions"],
+        "traces_validated_against_impl": summary["n"] + nrec + len(slines) + len(tlines),
         "vectors": len(r.vecs), "replays": summary["n"], "replay_mismatches": summary["bad"],
         "placements": summary["placements"], "vectors_with_endpoint_on_pixel_border": summary["endpoint_on_border"],
         "trace_records": nrec, "exhaustive": True,
